@@ -433,6 +433,7 @@ class Ctx:
         self.loc = None
         self.branch_timeout = 3000
         self.trace = []
+        self.mute = False  # a history prefix: obligations of this stretch are the ones of another scenario, not demanded here
 
     def assume(self, f):
         if isinstance(f, bool):
@@ -475,6 +476,8 @@ class Ctx:
     def oblige(self, name, goal, hyps=(), kind="post", meta=None, pure=False):
         """record obligation: pc (now) + all axioms (at discharge time) + hyps => goal
         pure: a closed lemma -- only `hyps` are used (no path condition, no context axioms)"""
+        if self.mute:
+            return
         if isinstance(goal, bool):
             goal = z3.BoolVal(goal)
         meta = dict(meta or {})
@@ -490,6 +493,8 @@ class Ctx:
             if goal:
                 return True
             goal = z3.BoolVal(False)
+        if self.mute:
+            return False
         name = f"{kind}@{self.loc or '?'}{(':' + what) if what else ''}"
         meta = {"index": index, "shape": shape} if index is not None else None
         self.obligations.append(Obligation(name, kind, list(self.pc) + list(hyps), goal, self.loc, meta))
